@@ -27,7 +27,7 @@ let unhex s =
     !r end
 
 (* ---- token stream over a line ------------------------------------------- *)
-type toks = { v : string array; mutable i : int }
+type toks = { v : Stdlib.String.t array; mutable i : int }
 let num t = let x = int_of_string t.v.(t.i) in t.i <- t.i + 1; x
 let str t = let x = t.v.(t.i) in t.i <- t.i + 1; x
 let split line = Array.of_list (List.filter (fun s -> s <> "") (String.split_on_char ' ' line))
@@ -244,6 +244,23 @@ let model_line out w line =
              let rd () = let a = num t in let x = num t in let y = num t in (n_of_int a, (z_of_int x, z_of_int y)) in
              let a = rd () in let b = rd () in
              out (cmp_line (mouse_eqb a b) (mouse_cmp a b) "-")
+         | "show" ->
+             let k = num t in
+             let vals = List.init k (fun _ ->
+               match str t with
+               | "colour" -> SvColour (mk_colour t)
+               | "attr" -> SvAttr (mk_attr t)
+               | "cs" -> SvCs (cs_of_int (num t))
+               | "glyph" -> SvGlyph (mk_glyph t)
+               | "elem" -> SvElem (mk_elem t)
+               | "str" -> SvStr (mk_string t)
+               | "point" -> let x = num t in let y = num t in SvPoint (z_of_int x, z_of_int y)
+               | "extent" -> let x = num t in let y = num t in SvExtent (z_of_int x, z_of_int y)
+               | "rect" -> let x = num t in let y = num t in let ww = num t in let h = num t in
+                   SvRect ((z_of_int x, z_of_int y), (z_of_int ww, z_of_int h))
+               | _ -> failwith "show tag") in
+             out ("SH " ^ hex (show_stream vals));
+             out ("SHS " ^ hex (show_stream vals))
          | _ -> out "ERR unknown value type")
     | "P" ->
         let id = num t in
